@@ -9,6 +9,8 @@
 #include <jsoncons_ext/jmespath/jmespath.hpp>
 #include <jsoncons_ext/jsonschema/jsonschema.hpp>
 #include <atomic>
+#include <deque>
+#include <fstream>
 #include <functional>
 #include <map>
 #include <thread>
@@ -50,11 +52,43 @@ static std::map<std::string, std::function<std::string()>> make_ops() {
     m["json_iterate"] = [] { std::string s; for (const auto& kv : g_doc.object_range()) { s += kv.key(); s += ':'; s += std::to_string((int)kv.value().type()); } for (const auto& e : g_doc["tags"].array_range()) s += e.as<std::string>(); return s; };
     return m;
 }
+// Artefact pool (spec/validation/C20_pool.json): every artefact is compiled ONCE and shared by all threads of all cases.
+struct Pool {
+    std::deque<json> files;
+    std::deque<jsonpath::jsonpath_expression<json>> paths;
+    std::deque<decltype(jmespath::make_expression<json>(std::string()))> jms;
+    std::deque<jsonschema::json_schema<json>> schemas;
+    std::vector<std::pair<std::string, std::function<std::string()>>> ops;
+    void load(const std::string& path) {
+        std::ifstream is(path); if (!is) { fprintf(stderr, "cannot open pool %s\n", path.c_str()); exit(2); }
+        files.emplace_back(json::parse(is)); const json& file = files.back();
+        const json& docs = file.at("docs");
+        int ai = (int)ops.size() * 1000;
+        for (const auto& a : file.at("artefacts").array_range()) {
+            const std::string kind = a.at("kind").as<std::string>(); ++ai;
+            if (kind == "jsonpath") { paths.emplace_back(jsonpath::make_expression<json>(a.at("text").as<std::string>())); auto* e = &paths.back();
+                for (const auto& d : a.at("docs").array_range()) { const json* doc = &docs.at(d.as<std::string>());
+                    ops.emplace_back("pool/" + std::to_string(ai) + "/" + d.as<std::string>(), [e, doc] { return e->evaluate(*doc).to_string() + e->evaluate(*doc, jsonpath::result_options::path | jsonpath::result_options::nodups).to_string(); }); } }
+            else if (kind == "jmespath") { jms.emplace_back(jmespath::make_expression<json>(a.at("text").as<std::string>())); auto* e = &jms.back();
+                for (const auto& d : a.at("docs").array_range()) { const json* doc = &docs.at(d.as<std::string>());
+                    ops.emplace_back("pool/" + std::to_string(ai) + "/" + d.as<std::string>(), [e, doc] { return e->evaluate(*doc).to_string(); }); } }
+            else { schemas.emplace_back(jsonschema::make_json_schema(a.at("text"), jsonschema::evaluation_options{}.require_format_validation(a.at("format_assertion").as<bool>()))); auto* sc = &schemas.back();
+                for (const auto& d : a.at("docs").array_range()) { const json* doc = &docs.at(d.as<std::string>());
+                    ops.emplace_back("pool/" + std::to_string(ai) + "/" + d.as<std::string>(), [sc, doc] { std::string out = sc->is_valid(*doc) ? "valid;" : "invalid;";
+                        auto rep = [&](const jsonschema::validation_message& msg) -> jsonschema::walk_result { out += msg.keyword(); out += msg.instance_location().string(); out += ';'; return jsonschema::walk_result::advance; };
+                        sc->validate(*doc, rep); return out; }); } }
+        }
+    }
+};
 static std::string hash(const std::string& s) { uint64_t h = 1469598103934665603ULL; for (unsigned char c : s) { h ^= c; h *= 1099511628211ULL; } char b[20]; snprintf(b, sizeof b, "%016llx", (unsigned long long)h); return b; }
 
 int main(int argc, char** argv) {
     auto args = hz::parse_args(argc, argv);
     auto ops = make_ops(); long ncases = 0, nops = 0;
+    Pool pool; std::string pool_path = args.opt("--pool", "");
+    if (!pool_path.empty()) { try { size_t a = 0; while (a <= pool_path.size()) { size_t b = pool_path.find(',', a); if (b == std::string::npos) b = pool_path.size(); if (b > a) pool.load(pool_path.substr(a, b - a)); a = b + 1; } } catch (const std::exception& e) { fprintf(stderr, "pool artefact does not compile: %s\n", e.what()); mj::Value r = hz::rec("pool-error"); r.set("what", e.what()); hz::emit(r); return 0; } }
+    for (auto& o : pool.ops) ops[o.first] = o.second;
+    auto op_name = [&](const mj::Value& o) -> std::string { if (o.is_str()) return o.str(); if (pool.ops.empty()) return "json_lookup"; return pool.ops[(size_t)o.as_int() % pool.ops.size()].first; };
     hz::for_each_case(args, [&](size_t idx, const std::string& line) {
         mj::Value c = mj::parse(line); ++ncases;
         int n = (int)c["n"].as_int(); int reps = (int)c["reps"].as_int();
@@ -66,7 +100,7 @@ int main(int argc, char** argv) {
         std::atomic<int> ready{0}; std::atomic<bool> go{false};
         std::vector<std::thread> th;
         for (int t = 0; t < n; ++t) th.emplace_back([&, t] {
-            std::vector<std::string> stream; for (auto& o : c["streams"][t].a) stream.push_back(o.str());
+            std::vector<std::string> stream; for (auto& o : c["streams"][t].a) stream.push_back(op_name(o));
             int skew = (int)c["skew"][t].as_int();
             ++ready; while (!go.load(std::memory_order_acquire)) {}
             for (volatile int s = 0; s < skew * 2000; ++s) {}
